@@ -205,9 +205,14 @@ class C04(Check):
                   "The model is tied to the code by evaluating it in Coq (binary64 classifier and interest) on every "
                   "generated history the implementation ran; the property itself is monitored on every implementation trace.")
     LEVEL_NOTE = ("Trusts: Coq kernel+VM; the correspondence harness; integer magnitudes < 2^53 where floats are fed. "
-                  "The theorems do not mention floats (classifier and interest are universally quantified); "
-                  "Print Assumptions: closed under the global context.")
-    TECHNIQUE = "Coq proof by invariant/potential-function induction over operation lists + vm_compute correspondence against ATP_Store"
+                  "The model theorems do not mention floats (classifier and interest are universally quantified). coq/gen/Gen_C04.v "
+                  "is regenerated from metabolism.py on every run; GenOk/GenSys prove grun (map proj sys) ops = map proj (run sys ops) "
+                  "and the headline theorems are restated on the generated functions (c04_gen_*). Print Assumptions: closed under the "
+                  "global context, except c04_rate_ok_of_nonneg_rate (non-vacuity of the rate hypothesis), which uses the standard "
+                  "library's FloatAxioms.mul_spec and of_uint63_spec.")
+    TECHNIQUE = ("Coq proof by invariant/potential-function induction over operation lists; source-to-Gallina translation of every "
+                 "ATP_Store method (translators/pyimp.py) with a machine-checked simulation theorem between the generated functions "
+                 "and the model; vm_compute correspondence of BOTH against ATP_Store")
     TRUSTED = ["state classification (_update_state float ratios) and int(debt*debt_interest) are executed in the model with "
                "PrimFloat/FloatOps (bit-exact with CPython binary64, no cases skipped); the theorems quantify over an arbitrary "
                "classifier and an arbitrary non-negative interest function, so no float reasoning is trusted in the proofs",
